@@ -126,6 +126,9 @@ class RibCtx(BaseCtx):
         wd = [p for p in wd if p not in nl]      # same prefix in both fields: left out (DESIGN.md C19)
         if not nl and not wd:
             nl = [rng.pick(PREFIXES)]
+        if wd and rng.chance(0.2):
+            wd = wd + [rng.pick(wd)]              # a prefix listed twice among the withdrawn routes (redundant, legal)
+            self.stats["gen:duplicate_withdrawn_prefix"] += 1
         attrs = self.attrs_for(rng.randrange(3), False) if nl else {}
         dirty = None
         if rng.chance(0.25):
@@ -468,7 +471,7 @@ class RibProfile(BaseProfile):
             "attributes, several routes per message, withdraw of absent routes), REST send/update for the sent side (IPv4, "
             "flowspec, VPNv4), adj-rib-in/out queries, session drops (close, reset, NOTIFICATION, operator stop) and "
             "re-establishment; non-trivial = reached Established; distinct = distinct (op, state) sequence")
-    probes = ["gen:prefixes_with_nonzero_padding", "gen:rest_announce_without_local_pref", "gen:mixed_mp_and_ipv4_updates", "rx_ipv4_updates", "rx_flowspec_updates", "rx_mpls_vpn_updates", "tx_ipv4_updates", "tx_flowspec_updates",
+    probes = ["gen:duplicate_withdrawn_prefix", "gen:prefixes_with_nonzero_padding", "gen:rest_announce_without_local_pref", "gen:mixed_mp_and_ipv4_updates", "rx_ipv4_updates", "rx_flowspec_updates", "rx_mpls_vpn_updates", "tx_ipv4_updates", "tx_flowspec_updates",
               "tx_mpls_vpn_updates", "session_drops", "withdraw_of_absent_route", "reannounce_same_attrs",
               "reannounce_changed_attrs", "rib_queries", "version_should_increase:rx:flowspec",
               "version_should_increase:rx:mpls_vpn", "version_should_increase:tx:flowspec"]
